@@ -447,6 +447,9 @@ func (w *World) StallG(g *simhook.G, d time.Duration) {
 // scheduler afterwards (harness code is not instrumented, so it must not use time.Sleep directly).
 func Sleep(d time.Duration) {
 	simhook.Yield("app.sleep")
+	if s := simhook.Current(); s != nil {
+		s.Poke() // let the driver re-evaluate monitors: the caller may have changed harness state
+	}
 	time.Sleep(d)
 	simhook.Resume("app.sleep")
 }
